@@ -207,6 +207,27 @@ def probe_gw1n_same_pin():
     return bool(undriven), "27 MHz in, two 108 MHz outputs: clock(s) %s not connected to any PLL pin" % undriven
 
 
+def probe_gw1n_best_only():
+    """GW1NPLL: only the (idiv, fdiv) closest to the highest request is tried against the slower clocks."""
+    from migen import Signal
+    from litex.soc.cores.clock.gowin_gw1n import GW1NPLL
+
+    def run(fhi):
+        g = GW1NPLL("GW1NR-9C", "GW1NR-LV9QN88PC6/I5")
+        g.register_clkin(Signal(), 27e6)
+        g.create_clkout(L.mk_cd(0), fhi, margin=0.03, with_reset=False)
+        g.create_clkout(L.mk_cd(1), 52.5e6, margin=1e-4, with_reset=False)
+        return g.compute_config()
+    try:
+        c = run(108e6)
+        return False, "accepted: idiv=%s fdiv=%s odiv=%s" % (c["idiv"], c["fdiv"], c["odiv"])
+    except ValueError as e:
+        w = run(105e6)          # the valid setting (CLKOUT 105 MHz is within 3 % of 108 MHz, CLKOUTD = 52.5 MHz exactly)
+        ok = abs(27e6 * w["fdiv"] / w["idiv"] - 108e6) <= 108e6 * 0.03 and w["SDIV_SEL"] == 2
+        return ok, "27 MHz in, 108 MHz +-3 %% and 52.5 MHz +-1e-4 refused (%s) although idiv=%s fdiv=%s odiv=%s serves both" % (
+            e, w["idiv"], w["fdiv"], w["odiv"])
+
+
 def probe_ecp5_idempotent():
     """ECP5PLL.compute_config stores the spare feedback output in self.clkouts: a second call is refused."""
     from migen import Signal
@@ -230,7 +251,8 @@ def probe_trion_fpll():
 
 
 DIRECT_PROBES = {"C20-ecp5-compute-config-not-idempotent": probe_ecp5_idempotent,
-                 "C20-trion-fpll-max-unchecked": probe_trion_fpll,"C20-gw5a-odiv-unchecked": probe_gw5a_odiv, "C20-gw1n-same-pin-overwrite": probe_gw1n_same_pin}
+                 "C20-trion-fpll-max-unchecked": probe_trion_fpll,"C20-gw5a-odiv-unchecked": probe_gw5a_odiv, "C20-gw1n-same-pin-overwrite": probe_gw1n_same_pin,
+                 "C20-gw1n-best-only-incomplete": probe_gw1n_best_only}
 
 
 def probes(ctx):
